@@ -28,6 +28,7 @@ class ScriptedNetworkStack(BaseNetworkStack):
         self.partners: Dict[int, Any] = {}  # physical id -> partner label
         self.pair_log: List[Dict[str, Any]] = []
         self.n_partner = 0
+        self.n_create_expected = 0
         executor.wait_hook = self.on_wait
 
     # ---- BaseNetworkStack
@@ -44,11 +45,24 @@ class ScriptedNetworkStack(BaseNetworkStack):
     # ---- plan handling
     def expect(self, role: str, tp: str, number: int, fields: Optional[List[Dict[str, Any]]] = None, remote_node_id=1, purpose_id=0) -> None:
         """Announce `number` responses for a request. role: "create"|"recv"; tp: "K"|"M"."""
+        req_no = None
+        if role == "create":
+            req_no = self.n_create_expected
+            self.n_create_expected += 1
         for i in range(number):
             f = dict(fields[i]) if fields and i < len(fields) else {}
             f.setdefault("remote_node_id", remote_node_id)
             f.setdefault("purpose_id", purpose_id)
-            self.plan.append({"role": role, "tp": tp, "pair": i, "fields": f})
+            self.plan.append({"role": role, "tp": tp, "pair": i, "fields": f, "req_no": req_no})
+
+    def deliver_eagerly(self) -> None:
+        """a fast link layer: deliver every planned response as soon as it can exist (creator side: once the request
+        was put; receiver side: at once, possibly before recv_epr has executed)"""
+        while self.plan:
+            item = self.plan[0]
+            if item["role"] == "create" and len(self.requests) <= item["req_no"]:
+                return
+            self.deliver(self.plan.pop(0))
 
     def on_wait(self) -> None:
         if not self.plan:
